@@ -543,6 +543,7 @@ fn c15_props(tier: &str, seed: u64, threads: usize, out: &str) {
                                 for _ in 0..6 {
                                     l.push(format!("ecmp {} {} {} {}", rng.below(g.n), rng.below(3), rng.below(g.n), rng.below(3)));
                                     l.push(format!("nv {}", rng.below(g.n)));
+                                    l.push(format!("sz {}", rng.below(g.n)));
                                 }
                                 l
                             }
